@@ -26,7 +26,7 @@ def configs(tier):
     # thorough tier only: larger shapes and mixed configurations
     extra = [
         ivp.Cfg("dense", "none", "filter", "ts1", q=3, d=2), ivp.Cfg("isotropic", "none", "filter", "ts0", q=3, d=3),
-        ivp.Cfg("blockdiag", "none", "filter", "ts1", q=3, d=2), ivp.Cfg("dense", "mle", "fixedinterval", "ts1", q=2, d=2),
+        ivp.Cfg("blockdiag", "none", "filter", "ts1", q=3, d=2), ivp.Cfg("dense", "mle", "fixedinterval", "ts1", q=1, d=2),
         ivp.Cfg("isotropic", "dynamic", "fixedpoint", "ts0", q=2, d=2), ivp.Cfg("blockdiag", "mle", "fixedinterval", "ts0", q=2, d=2),
         ivp.Cfg("dense", "mle", "filter", "ts1", q=2, d=2, order=2), ivp.Cfg("isotropic", "dynamic", "filter", "ts1", q=2, d=2, order=2, relin=True),
         ivp.Cfg("blockdiag", "dynamic", "fixedinterval", "ts1", q=2, d=2, relin=True), ivp.Cfg("dense", "none", "filter", "ts0", q=4, d=1),
